@@ -6,6 +6,7 @@ mod epatch;
 mod auth;
 mod integrity;
 mod leak;
+mod upgrade;
 use hcommon::parse_cli;
 
 fn main() {
@@ -17,6 +18,7 @@ fn main() {
         "auth" => auth::run(&cli),
         "integrity" => integrity::run(&cli),
         "leak" => leak::run(&cli),
+        "upgrade" => upgrade::run(&cli),
         "sched" => sync::run_sched(&cli),
         d => {
             eprintln!("unknown domain {d}");
